@@ -44,3 +44,9 @@ package rtsp
 //@   opaque
 //@   mode int
 //@ end
+
+// C13: the body of an RTSP message is allocated only for a Content-Length within [0, 1 MiB].
+//@ func readHttpMessageBody
+//@   props C13
+//@   ensures [C13.rtsp.body] result1 == nil ==> len(result0) <= 1048576
+//@ end
